@@ -35,3 +35,5 @@ def check(repo, rep, tier):
     rep.run(rx.rule_facts_immutable, em, rep, 'C07.S4')
     rep.run(rx.rule_store_shadows_follow, em, rep, 'C07.S5')
     rep.run(rq.rule_facts_first, em, rep, 'C07.Q1')
+    # the list of facts is the only thing a query consults: a query builds no second representation of it (cache, index)
+    rep.run(rs.rule_queries_read_only, em, rep, 'C07.Q2')
